@@ -1,2 +1,187 @@
+//! C15: the value encoding, through the public constructors and accessors of Object.
+
+use crate::bigfam::{big_json, lattice};
+use crate::Args;
+use nederlang::object::{FromString, FromVec, Object, Type};
+use nederlang::verif::GC;
+use rand::rngs::StdRng;
+use rand::{Rng, SeedableRng};
 use serde_json::{json, Value};
-pub fn run_enc(_req: &Value) -> Value { json!({}) }
+use std::io::Write;
+use std::panic::{catch_unwind, AssertUnwindSafe};
+
+pub fn run_enc(_req: &Value) -> Value {
+    json!({})
+}
+
+fn tyname(o: Object) -> String {
+    o.tag().to_string()
+}
+
+fn limbs16(bits: u64) -> Vec<u64> {
+    vec![bits & 0xffff, (bits >> 16) & 0xffff, (bits >> 32) & 0xffff, (bits >> 48) & 0xffff]
+}
+
+fn word(o: Object) -> Value {
+    big_json(o.raw_bits() as u64 as i128)
+}
+
+fn rand_string(rng: &mut StdRng) -> String {
+    let n = rng.gen_range(0..12);
+    (0..n)
+        .map(|_| match rng.gen_range(0..5) {
+            0 => char::from_u32(rng.gen_range(32..127)).unwrap(),
+            1 => char::from_u32(rng.gen_range(0xa0..0x800)).unwrap_or('é'),
+            2 => char::from_u32(rng.gen_range(0x800..0xd000)).unwrap_or('日'),
+            3 => char::from_u32(rng.gen_range(0x10000..0x1f000)).unwrap_or('😀'),
+            _ => ['\0', '\n', '"', '\\'][rng.gen_range(0..4)],
+        })
+        .collect()
+}
+
+fn rand_array(rng: &mut StdRng, gc: &mut GC, depth: usize) -> Object {
+    let n = rng.gen_range(0..4);
+    let items: Vec<Object> = (0..n)
+        .map(|_| match rng.gen_range(0..6) {
+            0 if depth > 0 => rand_array(rng, gc, depth - 1),
+            1 => Object::string(rand_string(rng), gc),
+            2 => Object::bool(rng.gen()),
+            3 => Object::null(),
+            4 => Object::float(rng.gen_range(-100..100) as f64 / 4.0, gc),
+            _ => Object::int(rng.gen_range(-1000..1000)),
+        })
+        .collect();
+    Object::array(items, gc)
+}
+
+pub fn gen_enc(args: &Args) {
+    crate::run::install_quiet_panic_hook();
+    let seed = args.num("seed", 1);
+    let n = args.num("n", 2000);
+    let out = args.get("out", "/dev/stdout");
+    let shard = args.num("shard", 0);
+    let shards = args.num("shards", 1);
+    let full = args.get("lattice", "quick") == "full";
+    let first_id = args.num("first-id", 1);
+    let mut f = std::io::BufWriter::new(std::fs::File::create(&out).expect("create out"));
+    let mut rng = StdRng::seed_from_u64(seed * 131 + shard);
+    let mut gc = GC::new();
+    let mut recs: Vec<Value> = Vec::new();
+    // integers: the lattice (shard 0 only) and random ones
+    let mut ints: Vec<i64> = if shard == 0 { lattice(full) } else { vec![] };
+    for _ in 0..n / 4 {
+        let b = rng.gen_range(1..=60);
+        ints.push(rng.gen_range(-(1i64 << b)..(1i64 << b)).clamp(crate::bigfam::MIN_INT, crate::bigfam::MAX_INT));
+    }
+    for v in &ints {
+        let o = Object::int(*v as isize);
+        recs.push(json!({"k":"int","v":big_json(*v as i128),"word":word(o),"dec":big_json(o.as_int() as i128),
+            "tag":o.raw_bits() & 7,"type":tyname(o),"heap":o.is_heap_allocated()}));
+    }
+    if shard == 0 {
+        for b in [true, false] {
+            let o = Object::bool(b);
+            recs.push(json!({"k":"bool","v":b,"word":word(o),"dec":o.as_bool(),"type":tyname(o),"heap":o.is_heap_allocated()}));
+        }
+        let o = Object::null();
+        recs.push(json!({"k":"null","word":word(o),"type":tyname(o),"heap":o.is_heap_allocated()}));
+        // function descriptors: complete cross product of the boundary sets
+        let ips: [u32; 12] = [0, 1, 2, 255, 256, 65535, 65536, (1 << 31) - 1, 1 << 31, u32::MAX - 1, u32::MAX, 12345678];
+        let nls: [u16; 10] = [0, 1, 2, 255, 256, 32767, 32768, 65534, 65535, 4242];
+        for ip in ips {
+            for nl in nls {
+                let o = Object::function(ip, nl);
+                let [dip, dnl] = o.as_function();
+                recs.push(json!({"k":"fn","ip":big_json(ip as i128),"nl":nl,"word":word(o),"dec_ip":big_json(dip as i128),
+                    "dec_nl":dnl,"type":tyname(o),"heap":o.is_heap_allocated()}));
+            }
+        }
+    }
+    // floats: random bit patterns, with the special ones
+    let mut fbits: Vec<u64> = vec![0, 1 << 63, 0x7ff0000000000000, 0xfff0000000000000, 0x7ff8000000000000, 0x7ff0000000000001,
+                                   1, 0x000fffffffffffff, 0x3ff0000000000000, 0xbff8000000000000];
+    for _ in 0..n / 4 {
+        fbits.push(rng.gen());
+    }
+    for b in &fbits {
+        let o = Object::float(f64::from_bits(*b), &mut gc);
+        recs.push(json!({"k":"float","bits":limbs16(*b),"dec_bits":limbs16(o.as_f64().to_bits()),"addr8":o.raw_bits() & !7 & 7,
+            "tag":o.raw_bits() & 7,"type":tyname(o),"heap":o.is_heap_allocated()}));
+    }
+    for _ in 0..n / 4 {
+        let s = rand_string(&mut rng);
+        let o = Object::string(s.as_str(), &mut gc);
+        let cp: Vec<u32> = s.chars().map(|c| c as u32).collect();
+        let dcp: Vec<u32> = o.as_str().chars().map(|c| c as u32).collect();
+        recs.push(json!({"k":"str","cp":cp,"dec_cp":dcp,"dec_len":o.as_str().chars().count(),"addr8":(o.raw_bits() >> 3 << 3) % 8,
+            "tag":o.raw_bits() & 7,"type":tyname(o),"heap":o.is_heap_allocated()}));
+    }
+    for _ in 0..n / 8 {
+        let o = rand_array(&mut rng, &mut gc, 2);
+        let v = crate::proj::unfold(o, 6);
+        // read back through as_vec: a second unfolding must see the same structure
+        let copy: Vec<Object> = o.as_vec().clone();
+        let o2 = Object::array(copy, &mut gc);
+        recs.push(json!({"k":"arr","val":v,"dec":crate::proj::unfold(o2, 6),"addr8":(o.raw_bits() & !7) % 8,
+            "tag":o.raw_bits() & 7,"type":tyname(o),"heap":o.is_heap_allocated()}));
+    }
+    // equality: complete cross product of a sample of scalars, texts and functions
+    let mut sample: Vec<(String, String, Object, f64)> = Vec::new();
+    // (the cross product is computed by shard 0 alone, over the whole sample)
+    let k = if shard == 0 { args.num("eq-sample", 200) as usize } else { 0 };
+    sample.push(("null".into(), "0".into(), Object::null(), 0.0));
+    sample.push(("bool".into(), "ja".into(), Object::bool(true), 0.0));
+    sample.push(("bool".into(), "nee".into(), Object::bool(false), 0.0));
+    for v in [0i64, 1, 2, -1, 8, 10, crate::bigfam::MAX_INT, crate::bigfam::MIN_INT] {
+        sample.push(("int".into(), v.to_string(), Object::int(v as isize), 0.0));
+    }
+    for (ip, nl) in [(0u32, 0u16), (0, 1), (1, 0), (1, 1), (65536, 0), (0, 65535), (8, 2)] {
+        sample.push(("fn".into(), format!("{ip}/{nl}"), Object::function(ip, nl), 0.0));
+    }
+    for x in [0.0f64, -0.0, 1.0, 1.5, f64::NAN, f64::INFINITY, -1.0, 2.0, 10.0] {
+        sample.push(("float".into(), x.to_bits().to_string(), Object::float(x, &mut gc), x));
+    }
+    for s in ["", "a", "b", "ab", "é", "1", "0", "ja", "10", "1.5"] {
+        sample.push(("str".into(), s.to_string(), Object::string(s, &mut gc), 0.0));
+    }
+    while sample.len() < k {
+        match rng.gen_range(0..3) {
+            0 => {
+                let v = rng.gen_range(-20i64..20);
+                sample.push(("int".into(), v.to_string(), Object::int(v as isize), 0.0));
+            }
+            1 => {
+                let s = rand_string(&mut rng);
+                sample.push(("str".into(), s.clone(), Object::string(s, &mut gc), 0.0));
+            }
+            _ => {
+                let x = rng.gen_range(-8..8) as f64 / 2.0;
+                sample.push(("float".into(), x.to_bits().to_string(), Object::float(x, &mut gc), x));
+            }
+        }
+    }
+    if k == 0 {
+        sample.clear();
+    }
+    for (i, (ka, keya, a, fa)) in sample.iter().enumerate() {
+        for (j, (kb, keyb, b, fb)) in sample.iter().enumerate() {
+            if ((i * sample.len() + j) as u64) % shards != shard && shards > 1 && false {
+                continue;
+            }
+            let r = catch_unwind(AssertUnwindSafe(|| a == b));
+            let eq = match r {
+                Ok(e) => json!(e),
+                Err(_) => json!("panic"),
+            };
+            // (keys as code points: TLC's own strings are not reliable beyond ASCII)
+            let ca: Vec<u32> = keya.chars().map(|c| c as u32).collect();
+            let cb: Vec<u32> = keyb.chars().map(|c| c as u32).collect();
+            recs.push(json!({"k":"eq","x":{"kind":ka,"key":ca},"y":{"kind":kb,"key":cb},"eq":eq,"feq":fa == fb}));
+        }
+    }
+    for (i, mut r) in recs.into_iter().enumerate() {
+        r["id"] = json!(first_id + i as u64);
+        writeln!(f, "{}", r).unwrap();
+    }
+    std::mem::forget(gc);
+}
